@@ -210,7 +210,7 @@ def run(ctx: core.Ctx) -> core.Report:
                 "clock and a simulated network; 1..3 disturbances (graceful stop/start, crash/restart, lone stop or crash) placed at, "
                 "one tick before and after the timer deadlines of the run and at random ticks; loss / duplication / reordering "
                 "windows (finite TTLs); 6 timing families incl. infinite TTLs; oracle at last disturbance + TTL + period + startup")
-    for k in range(ctx.n(40, 600)):
+    for k in range(ctx.n(90, 1200)):
         infinite = k % 4 == 3
         cyc = rng.choice([100, 250, 400])
         if infinite:
